@@ -782,6 +782,25 @@ def r17g(ctx: Context) -> None:
                 rule.fail(key, site.where, f"{method.short} reports a caught exception with {flag}={norm(value) if value is not None else 'nothing'}: the run carries on after the error (a strict-mode configuration error, a plugin that cannot be initialised) with whatever was set up before it")
 
 
+def _display_of(func: FuncInfo, expr: ast.AST) -> ast.AST:
+    """a literal display, or the display a local was bound to (once)"""
+    if isinstance(expr, ast.Name):
+        values = [n.value for n in walk_local(func.node) if isinstance(n, (ast.Assign, ast.AnnAssign)) and getattr(n, "value", None) is not None
+                  and any(isinstance(t, ast.Name) and t.id == expr.id for t in (n.targets if isinstance(n, ast.Assign) else [n.target]))]
+        if len(values) == 1:
+            return values[0]
+    return expr
+
+
+class _LoopView:
+    def __init__(self, target: ast.AST, iterable: ast.AST):
+        self.target, self.iter = target, iterable
+
+
+def _with_iter(node: ast.AST, iterable: ast.AST) -> "_LoopView":
+    return _LoopView(node.target, iterable)  # type: ignore[attr-defined]
+
+
 def _block_of(func: FuncInfo, node: ast.AST) -> Tuple[Optional[List[ast.stmt]], int]:
     """(innermost statement list holding ``node``, index of the statement that holds it)"""
     best: Tuple[Optional[List[ast.stmt]], int] = (None, -1)
@@ -795,7 +814,7 @@ def _block_of(func: FuncInfo, node: ast.AST) -> Tuple[Optional[List[ast.stmt]], 
     return best
 
 
-def _string_tails(prog: Program, func: FuncInfo, expr: ast.AST, depth: int = 0, at: Optional[ast.AST] = None) -> Set[str]:
+def _string_tails(prog: Program, func: FuncInfo, expr: ast.AST, depth: int = 0, at: Optional[ast.AST] = None, env: Optional[Dict[str, ast.AST]] = None) -> Set[str]:
     """the constant texts ``expr`` can end in: literals, concatenations, f-strings, os.path.abspath / join, locals
     (the binding just before the use when it sits in the same block, else every binding), loop variables over
     literal displays, conditional expressions"""
@@ -805,37 +824,40 @@ def _string_tails(prog: Program, func: FuncInfo, expr: ast.AST, depth: int = 0, 
     if isinstance(expr, ast.Constant) and isinstance(expr.value, str):
         return {expr.value}
     if isinstance(expr, ast.BinOp) and isinstance(expr.op, ast.Add):
-        rights = _string_tails(prog, func, expr.right, depth + 1, at=at)
-        lefts = _string_tails(prog, func, expr.left, depth + 1, at=at) or {""}
+        rights = _string_tails(prog, func, expr.right, depth + 1, at=at, env=env)
+        lefts = _string_tails(prog, func, expr.left, depth + 1, at=at, env=env) or {""}
         return {left + right for left in lefts for right in rights}
     if isinstance(expr, ast.JoinedStr):
         tails = {""}
         for part in expr.values:
-            piece = _string_tails(prog, func, part.value if isinstance(part, ast.FormattedValue) else part, depth + 1, at=at) or {""}
+            piece = _string_tails(prog, func, part.value if isinstance(part, ast.FormattedValue) else part, depth + 1, at=at, env=env) or {""}
             tails = {a + b for a in tails for b in piece}
         return tails
     if isinstance(expr, ast.IfExp):
-        return _string_tails(prog, func, expr.body, depth + 1, at=at) | _string_tails(prog, func, expr.orelse, depth + 1, at=at)
+        return _string_tails(prog, func, expr.body, depth + 1, at=at, env=env) | _string_tails(prog, func, expr.orelse, depth + 1, at=at, env=env)
     if isinstance(expr, ast.Call):
         name = dotted(expr.func) or ""
         if name.endswith(("abspath", "normpath", "realpath", "expanduser", "str")) and expr.args:
-            return _string_tails(prog, func, expr.args[0], depth + 1, at=at)
+            return _string_tails(prog, func, expr.args[0], depth + 1, at=at, env=env)
         if name.endswith("path.join") and expr.args:
-            return _string_tails(prog, func, expr.args[-1], depth + 1, at=at)
+            return _string_tails(prog, func, expr.args[-1], depth + 1, at=at, env=env)
         return set()
     if isinstance(expr, ast.Name):
         found: Set[str] = set()
+        if env and expr.id in env:
+            return _string_tails(prog, func, env[expr.id], depth + 1, at=at)
         block, index = _block_of(func, at)
         if block is not None:
             for stmt in reversed(block[:index]):
                 if isinstance(stmt, (ast.Assign, ast.AnnAssign)) and getattr(stmt, "value", None) is not None \
                         and any(isinstance(t, ast.Name) and t.id == expr.id for t in (stmt.targets if isinstance(stmt, ast.Assign) else [stmt.target])):
-                    return _string_tails(prog, func, stmt.value, depth + 1, at=stmt)
+                    return _string_tails(prog, func, stmt.value, depth + 1, at=stmt, env=env)
         for node in walk_local(func.node):
             if isinstance(node, (ast.Assign, ast.AnnAssign)) and getattr(node, "value", None) is not None:
                 if any(isinstance(t, ast.Name) and t.id == expr.id for t in (node.targets if isinstance(node, ast.Assign) else [node.target])):
-                    found |= _string_tails(prog, func, node.value, depth + 1, at=node)
-            elif isinstance(node, (ast.For, ast.comprehension)) and isinstance(node.iter, (ast.Tuple, ast.List)):
+                    found |= _string_tails(prog, func, node.value, depth + 1, at=node, env=env)
+            elif isinstance(node, (ast.For, ast.comprehension)) and isinstance(_display_of(func, node.iter), (ast.Tuple, ast.List)):
+                node = _with_iter(node, _display_of(func, node.iter))
                 if isinstance(node.target, ast.Name) and node.target.id == expr.id:
                     for element in node.iter.elts:
                         found |= _string_tails(prog, func, element, depth + 1)
@@ -861,23 +883,41 @@ def r17h(ctx: Context) -> None:
     documented = sorted(set(_re.findall(r"`(\.pymarkdown(?:\.[a-z]+)?)`", doc)))
     if len(documented) < 2:
         raise AnalysisError(f"advanced_configuration.md: the names of the default configuration file were not found ({documented})")
-    loads: List[Tuple[FuncInfo, CallSite, Set[str]]] = []
+    loads: List[Tuple[FuncInfo, ast.Call, Set[str], str]] = []  # (function, call, file-name tails, loader class)
     for func in prog.cls(ACH).methods.values():
-        for site in prog.sites_in(func):
-            if (site.external or "").endswith(".load_and_set") and len(site.node.args) >= 2:
-                loads.append((func, site, _string_tails(prog, func, site.node.args[1], at=site.node)))
+        for call in [n for n in walk_local(func.node) if isinstance(n, ast.Call) and isinstance(n.func, ast.Attribute) and n.func.attr == "load_and_set" and len(n.args) >= 2]:
+            receiver = call.func.value
+            rows: List[Tuple[Dict[str, ast.AST], str]] = []
+            if isinstance(receiver, ast.Name):
+                # the loader comes out of a table that a loop walks: one load per row, file name and loader from the same row
+                for loop in [n for n in walk_local(func.node) if isinstance(n, ast.For) and any(sub is call for sub in ast.walk(n))]:
+                    table = _display_of(func, loop.iter)
+                    if isinstance(loop.target, ast.Tuple) and isinstance(table, (ast.Tuple, ast.List)):
+                        names = [t.id if isinstance(t, ast.Name) else None for t in loop.target.elts]
+                        if receiver.id in names:
+                            for row in table.elts:
+                                if isinstance(row, (ast.Tuple, ast.List)) and len(row.elts) == len(names):
+                                    env = {n: e for n, e in zip(names, row.elts) if n}
+                                    rows.append((env, norm(env[receiver.id])))
+            if rows:
+                for env, loader in rows:
+                    loads.append((func, call, _string_tails(prog, func, call.args[1], at=call, env=env), loader))
+            else:
+                loads.append((func, call, _string_tails(prog, func, call.args[1], at=call), norm(receiver)))
+    if len(loads) < 3:
+        raise AnalysisError(f"only {len(loads)} configuration loads found in the configuration helper")
     for name in documented:
         key = f"default configuration file {name}"
-        loaders = [(func, site) for func, site, tails in loads if any(tail == name or tail.endswith("/" + name) for tail in tails)]
+        loaders = [(func, call, loader) for func, call, tails, loader in loads if any(tail == name or tail.endswith("/" + name) for tail in tails)]
         if not loaders:
             rule.fail(key, "pymarkdown/application_configuration_helper.py", f"the documentation names '{name}' as a default configuration file, but no configuration layer is loaded from a file of that name: settings a user keeps there are silently ignored")
             continue
         wanted = "Yaml" if name.endswith((".yaml", ".yml")) else "Json"
-        formats = {(site.external or "").split(".")[-2] for _func, site in loaders}
+        formats = {loader.split(".")[-1] for _func, _call, loader in loaders}
         if any(wanted in fmt for fmt in formats):
             rule.ok(key, f"loaded through {sorted(formats)}")
         else:
-            rule.fail(key, loaders[0][1].where, f"'{name}' is loaded through {sorted(formats)}, not as {wanted.upper()}")
+            rule.fail(key, where(loaders[0][0], loaders[0][1]), f"'{name}' is loaded through {sorted(formats)}, not as {wanted.upper()}")
 
 
 def r17i(ctx: Context) -> None:
